@@ -9,6 +9,6 @@ import NbioVerif.Properties.C02
 #print axioms ReadPath.udpKey_inj
 #print axioms ReadPath.c02_udp_demux
 #print axioms ReadPath.c02_no_spin
-#print axioms ReadPath.c02_close_drained_partial
-#print axioms ReadPath.c02_close_drained_counterexample
+#print axioms ReadPath.c02_close_drained
+#print axioms ReadPath.c02_hup_closes
 #print axioms Gate.c02_gate_prefix_counterexample
